@@ -11,6 +11,8 @@
   TRACE   (code -> spec) seeded random valid configurations (random subsets of optional keys, class, sub-command,
           items, dict keys) with 0-2 random mutations at random depth are run on the real code; TLC validates the
           observed decisions against Trace_Validate.
+  LINKS   (round 4, harness/checks/c06_links.py) the same three steps for parsers with link_arguments: only the link TARGET stops being
+          required (ValLinks.tla, MC_ValLinks.tla, Trace_ValLinks.tla).
 """
 from __future__ import annotations
 
@@ -24,6 +26,7 @@ import types
 import warnings
 
 from ..lib import common, pipeline, tlc
+from . import c06_links
 from ..lib.evidence import Report, machinery_failure
 
 PID = "C06"
@@ -596,6 +599,8 @@ def main(argv):
         "the environment channel only carries configurations it can express (an unknown variable is never looked at)",
         "a rejection must contain the offending key's last component as a substring of the message (wording is not compared)",
         "gamma renders '#' as the first list item and class names as import paths of a generated module",
+        "links: one family of parsers (class group / add_subclass_arguments / add_argument(type=), links on parse or instantiate onto a plain option, a class parameter, "
+        "a parameter below a required class-typed parameter); configurations never WRITE a link target (overriding a computed key is outside the property)",
     ]
     mc = tlc.run("MC_Validate", "MC_Validate", workers=16, timeout=1200, heap="8g")
     rep.add_tlc("MC_Validate", mc)
@@ -654,6 +659,9 @@ def main(argv):
             rep.sample({"base": c["base"], "mutation": c["mut"], "expected": c["ref"], "calls": [{"ch": o["ch"], "call": o["call"][:200], "out": o["out"], "msg": o["msg"][:100]} for o in outs[:3]]})
     rep.extra["model_cases"] = len(cases)
     rep.extra["model_parses"] = nparse
+
+    # ---- extension (round 4): argument links x required keys (ValLinks.tla); placed before the long random part
+    lk = c06_links.run(rep, tier, common.rng(PID + "-links"))
 
     # ---- TRACE
     ntr = 1500 if tier == "quick" else 20000
@@ -719,13 +727,15 @@ def main(argv):
         rep.sample({"random_cfg": rcases[0]["cfg"], "mutations": rcases[0]["muts"], "outs": [{"ch": o["ch"], "out": o["out"]} for o in rres[0]]})
     finally:
         common.rm(tmp)
-    rep.evaluations = nparse + rep.extra["random_parses"]
+    rep.evaluations = nparse + rep.extra["random_parses"] + lk.get("parses", 0) + lk.get("random_parses", 0)
     rep.rule = ("cases = (valid configuration, mutation) pairs, each parsed through up to 6 channels; non-trivial & distinct = distinct pairs with a real mutation "
                 "(a foreign key somewhere or a required key removed / nulled)")
     rep.exhaustive = False
     rep.explanation = (f"all {len(cases)} (configuration, mutation) pairs of MC_Validate x channels ({nparse} parses) compared with TLC's outcome, rejections checked to name the key; "
                        f"{len(rcases)} random configurations of that shape and {len(scases)} configurations over {len(shapes2)} random parser shapes, each with 0-2 mutations "
-                       f"({rep.extra['random_parses']} parses), validated by TLC against Trace_Validate")
+                       f"({rep.extra['random_parses']} parses), validated by TLC against Trace_Validate; links x required keys: all {lk.get('cases', 0)} "
+                       f"(parser variant with link_arguments, one omission or one foreign key) pairs of MC_ValLinks x channels ({lk.get('parses', 0)} parses) compared with TLC's outcome, "
+                       f"{lk.get('random', 0)} random variants / configurations with 0-3 omissions ({lk.get('random_parses', 0)} parses) validated by TLC against Trace_ValLinks")
     return rep.finish()
 
 
